@@ -1,10 +1,69 @@
-(* C09 -- placeholder until the lemmas land *)
-From Tola Require Import Py.Base Model.Fragment Model.Scaffold Model.Namer Model.Remap.
+(* C09 -- Tags route sequence to the documented destination assembly.
+   Only statements, each closed by [exact] of a lemma from Proofs/Routing.v. *)
+From Tola Require Import Py.Base Model.Fragment Model.Scaffold Model.Namer Model.Remap
+  Proofs.Routing.
 
-Lemma C09_label_example :
-  match label_scaffold (new_namer (s "SUPER_")) 0 [s "Painted"; s "Contaminant"; s "Haplotig"] [s "Painted"] with
-  | Ok (_, l) => lb_tag l = Some (s "Haplotig") /\ lb_rank l = 3
-  | Err _ => False
-  end.
-Proof. vm_compute. split; reflexivity. Qed.
-Print Assumptions C09_label_example.
+(* which tag a piece gets: FalseDuplicate > Haplotig > Contaminant (explicit, or
+   Target mode active and the Pretext scaffold has no Target tag) > none; its
+   haplotype is the current one; a tagged piece is unplaced (rank 3) *)
+Theorem C09_label_tag_spec : forall nm id ft st nm' l,
+  label_scaffold nm id ft st = Ok (nm', l) ->
+  lb_tag l = expected_tag (nm_target nm) ft st
+  /\ lb_hap l = nm_cur_hap nm
+  /\ (lb_tag l <> None -> lb_rank l = 3)
+  /\ nm_target nm' = nm_target nm /\ nm_cur_hap nm' = nm_cur_hap nm
+  /\ nm_cur_name nm' = nm_cur_name nm /\ nm_cur_rank nm' = nm_cur_rank nm.
+Proof. exact label_tag_spec. Qed.
+Print Assumptions C09_label_tag_spec.
+
+(* labelling fails only for an Unloc piece in an unpainted scaffold (an error,
+   not a misrouting) *)
+Theorem C09_label_fails_only_unloc_unpainted : forall nm id ft st,
+  label_scaffold nm id ft st = Err ValueError <->
+  (mem_str (s "FalseDuplicate") ft = false /\ mem_str (s "Haplotig") ft = false
+   /\ mem_str (s "Unloc") ft = true /\ mem_str (s "Painted") st = false).
+Proof. exact label_fails_only_unloc_unpainted. Qed.
+Print Assumptions C09_label_fails_only_unloc_unpainted.
+
+(* once a Target tag has been seen, Target mode stays on for every later
+   Pretext scaffold and for the left-over sequence *)
+Theorem C09_target_set_by_tag : forall nm n rows tags nm',
+  make_scaffold_name nm n rows tags = Ok nm' -> tags <> [] -> In (s "Target") tags -> nm_target nm' = true.
+Proof. exact target_set_by_tag. Qed.
+Print Assumptions C09_target_set_by_tag.
+Theorem C09_target_monotone_make : forall nm n rows tags nm',
+  make_scaffold_name nm n rows tags = Ok nm' -> nm_target nm = true -> nm_target nm' = true.
+Proof. exact target_monotone_make. Qed.
+Print Assumptions C09_target_monotone_make.
+Theorem C09_target_monotone_label : forall nm id ft st nm' l,
+  label_scaffold nm id ft st = Ok (nm', l) -> nm_target nm = true -> nm_target nm' = true.
+Proof. exact target_monotone_label. Qed.
+Print Assumptions C09_target_monotone_label.
+
+(* routing through the (repaired) fusion key: every piece with rows ends up, as
+   a contiguous block of rows, in the fused scaffold stored under its own
+   (tag, haplotype, name), which goes to the assembly keyed by that tag, else
+   that haplotype, else the primary *)
+Theorem C09_routing : forall g pieces sc isr, In (sc, isr) pieces -> sc_rows sc <> [] ->
+  exists b pre suf,
+    aget fuse_key_eqb (fold_left (fuse_step repaired g) pieces []) (key_of_piece sc) = Some b
+    /\ sc_rows b = pre ++ sc_rows sc ++ suf /\ fst (asm_key_of b) = fst (asm_key_of sc).
+Proof. exact routing. Qed.
+Print Assumptions C09_routing.
+
+Theorem C09_asm_key_of_tagged : forall sc t, sc_tag sc = Some t -> t <> [] -> asm_key_of sc = (Some t, false).
+Proof. exact asm_key_of_tagged. Qed.
+Print Assumptions C09_asm_key_of_tagged.
+Theorem C09_asm_key_of_untagged : forall sc, truthy (sc_tag sc) = false ->
+  asm_key_of sc = (if truthy (sc_hap sc) then (sc_hap sc, true) else (None, true)).
+Proof. exact asm_key_of_untagged. Qed.
+Print Assumptions C09_asm_key_of_untagged.
+
+(* the fusion key of the pinned commit (no tag) is refuted: a Contaminant piece
+   fused into an untagged scaffold of the same name (repaired by a fix: commit) *)
+Theorem C09_legacy_refuted : exists g p1 p2 b, let c := mkCfg true true false true in
+  sc_tag (fst p2) = Some (s "Contaminant") /\ sc_rows (fst p2) <> [] /\
+  aget fuse_key_eqb (fold_left (fuse_step c g) [p1; p2] []) (None, sc_hap (fst p2), sc_name (fst p2)) = Some b
+  /\ sc_tag b = None /\ (exists pre, sc_rows b = pre ++ sc_rows (fst p2)).
+Proof. exact legacy_fusion_refuted. Qed.
+Print Assumptions C09_legacy_refuted.
